@@ -73,7 +73,7 @@ def scenario(transport, ka, T, R, prefix, newloop):
     by_reg[final_reg] = []
     groups.append([["read", final_reg, 2]])
     sc = {"transport": transport, "framing": framing, "keep_alive": ka, "T": T, "R": R, "by_reg": by_reg,
-          "after": "drop", "prefix": list(prefix), "newloop": newloop}
+          "after": "drop", "prefix": list(prefix), "newloop": newloop, "hops": (len(prefix) + sum(map(len, prefix))) % 4}
     if newloop:
         sc["segments"] = [[{"start": 0.0, "steps": g}] for g in groups]
     else:
